@@ -2,6 +2,7 @@ package synchronizer
 
 import (
 	"context"
+	"errors"
 	"time"
 
 	"github.com/relab/hotstuff"
@@ -32,14 +33,19 @@ func (vhDuration) ViewTimeout()            {}
 type VComm struct {
 	VotedBlocks []*hotstuff.Block
 	Proposed    []*hotstuff.ProposeMsg // own proposals handed to the disseminator (after the own vote)
+	FailAggregate bool                // the next Aggregate call reports a send failure (after the vote was signed)
 	NewViews    []hotstuff.SyncInfo
 	Timeouts    []hotstuff.TimeoutMsg
 }
 
 func (c *VComm) Aggregate(p *hotstuff.ProposeMsg, _ hotstuff.PartialCert) error {
 	c.VotedBlocks = append(c.VotedBlocks, p.Block)
+	if c.FailAggregate {
+		return errors.New("harness: vote could not be sent") // built here: package-level initialisers of this package are not run by the engine
+	}
 	return nil
 }
+
 func (c *VComm) Disseminate(p *hotstuff.ProposeMsg, _ hotstuff.PartialCert) error {
 	c.Proposed = append(c.Proposed, p)
 	return nil
